@@ -255,4 +255,132 @@ example : resolve .none cexEnv (some (.int 5)) = .err .invalidFormat ∧
     resolve .none cexEnv (some (.str "json.dumps")) = .err .classNotFound ∧
     resolve .none cexEnv (some (.str "asyncio.windows_events.X")) = .err .unknownModule := by decide
 
+/-! ### The stage table (second tie): the interpreter of the regenerated decision structure IS the model
+
+`interp stageTable` — the table-driven reading of `from_json`, whose table the translator regenerates from the
+source on every run — equals `resolve Quirks.current`, the function every theorem above is about. So the theorems
+speak about `interp stageTable`, and a source change that alters the table breaks the regenerated obligation
+`Translated.C19_stages_translated_eq_model`. -/
+section Stages
+set_option linter.unusedSimpArgs false
+
+theorem interp_stageTable_none (env : Env) (tag : Option Json) :
+    interp stageTable env tag = some (resolve .none env tag) := by
+  cases tag with
+  | none => simp [interp, interpFrom, stageTable, step, tagTruthy, resolve]
+  | some t =>
+    by_cases ht : t.truthy = true
+    · cases t with
+      | str s =>
+        cases hr : rsplit s with
+        | none =>
+          simp [interp, interpFrom, stageTable, step, tagTruthy, isStrTag, resolve, ht, hr, catches, Quirks.none]
+        | some p =>
+          obtain ⟨m, c⟩ := p
+          cases hi : env.importModule m with
+          | ok =>
+            cases ha : env.getattr m c with
+            | missing =>
+              simp [interp, interpFrom, stageTable, step, tagTruthy, isStrTag, resolve, ht, hr, hi, ha, catches, Quirks.none]
+            | nonClass k =>
+              simp [interp, interpFrom, stageTable, step, tagTruthy, isStrTag, resolve, ht, hr, hi, ha, catches, Quirks.none]
+            | cls k ser reg impl =>
+              cases ser <;> cases reg <;> cases impl <;>
+              simp [interp, interpFrom, stageTable, step, tagTruthy, isStrTag, resolve, ht, hr, hi, ha, catches, Quirks.none]
+          | _ =>
+            simp [interp, interpFrom, stageTable, step, tagTruthy, isStrTag, resolve, ht, hr, hi, catches, Quirks.none]
+      | _ => simp [interp, interpFrom, stageTable, step, tagTruthy, isStrTag, resolve, ht, Quirks.none]
+    · simp [interp, interpFrom, stageTable, step, tagTruthy, resolve, ht]
+
+
+/-- **resolve_eq_interp.** For every environment and every JSON value under the tag key: interpreting the stage
+table of the code as it is gives exactly the outcome of the hand-written model. -/
+theorem resolve_eq_interp (env : Env) (tag : Option Json) :
+    interp stageTable env tag = some (resolve .current env tag) := by
+  rw [interp_stageTable_none]; rfl
+
+/-- the same interpreter on the table of the code *as it was found* reproduces all six recorded defects: the escaping
+exceptions are consequences of the missing stages / narrower `except` clauses, not separate modelling decisions -/
+theorem asFound_eq_interp (env : Env) (tag : Option Json) :
+    interp stageTableAsFound env tag = some (resolve .all env tag) := by
+  cases tag with
+  | none => simp [interp, interpFrom, stageTableAsFound, step, tagTruthy, resolve]
+  | some t =>
+    by_cases ht : t.truthy = true
+    · cases t with
+      | str s =>
+        cases hr : rsplit s with
+        | none =>
+          simp [interp, interpFrom, stageTableAsFound, step, tagTruthy, isStrTag, resolve, ht, hr, catches, Quirks.all]
+        | some p =>
+          obtain ⟨m, c⟩ := p
+          cases hi : env.importModule m with
+          | ok =>
+            cases ha : env.getattr m c with
+            | missing =>
+              simp [interp, interpFrom, stageTableAsFound, step, tagTruthy, isStrTag, resolve, ht, hr, hi, ha, catches, Quirks.all]
+            | nonClass k =>
+              simp [interp, interpFrom, stageTableAsFound, step, tagTruthy, isStrTag, resolve, ht, hr, hi, ha, catches, Quirks.all]
+            | cls k ser reg impl =>
+              cases ser <;> cases reg <;> cases impl <;>
+              simp [interp, interpFrom, stageTableAsFound, step, tagTruthy, isStrTag, resolve, ht, hr, hi, ha, catches, Quirks.all]
+          | _ =>
+            simp [interp, interpFrom, stageTableAsFound, step, tagTruthy, isStrTag, resolve, ht, hr, hi, catches, Quirks.all]
+      | _ => simp [interp, interpFrom, stageTableAsFound, step, tagTruthy, isStrTag, resolve, ht, catches, Quirks.all]
+    · simp [interp, interpFrom, stageTableAsFound, step, tagTruthy, resolve, ht]
+
+/-- what `fromJson` does with an object once the tag is resolved (the part after the dispatch) -/
+def afterResolve (q : Quirks) (env : Env) (kvs : List (String × Json)) : Option Outcome → Except Err PyVal
+  | some (.err e) => .error (.doc e)
+  | some (.escape x) => .error (.escape x)
+  | some (.dispatch c .fromJson) =>
+    (match fromJsonFields q env kvs with
+     | .ok fs => .ok (.obj c fs)
+     | .error e => .error e)
+  | some (.dispatch c .registry) =>
+    (match lookup "value" kvs with
+     | some (.str p) => .ok (.ext c p)
+     | _ => .error .payload)
+  | none => .error .payload
+
+theorem fromJson_eq_interp (env : Env) (kvs : List (String × Json)) :
+    fromJson .current env (.obj kvs) = afterResolve .current env kvs (interp stageTable env (lookup tagKey kvs)) := by
+  rw [resolve_eq_interp]
+  simp only [fromJson]
+  cases resolve .current env (lookup tagKey kvs) with
+  | err e => rfl
+  | escape x => rfl
+  | dispatch c v =>
+    cases v with
+    | fromJson => simp only [afterResolve]; cases fromJsonFields .current env kvs <;> rfl
+    | registry =>
+      simp only [afterResolve]
+      cases lookup "value" kvs with
+      | none => rfl
+      | some j => cases j <;> rfl
+
+/-- **C19_total_stages / C19_spec_stages.** The property theorems restated about the table interpreter (valid while
+`Quirks.current = Quirks.none`, i.e. while no finding of C19 is open; `rfl` re-checks that on every build). -/
+theorem C19_total_stages (env : Env) (tag : Option Json) :
+    ∃ o, interp stageTable env tag = some o ∧ (∀ x, o ≠ .escape x) ∧ (spec env tag).accepts o = true := by
+  refine ⟨resolve .none env tag, ?_, (C19_total env tag).1, C19_spec env tag⟩
+  rw [resolve_eq_interp]; rfl
+
+/-- whatever table is *equal* to the model's table inherits the property (used by the generated obligation) -/
+theorem C19_of_table_eq (t : StageTable) (h : t = stageTable) (env : Env) (tag : Option Json) :
+    ∃ o, interp t env tag = some o ∧ (∀ x, o ≠ .escape x) ∧ (spec env tag).accepts o = true := by
+  subst h; exact C19_total_stages env tag
+
+/-- tests: the interpreter on the two tables, concrete inputs (the witnesses of F-C19-1, -4, -6) -/
+example : interp stageTable cexEnv (some (.int 5)) = some (.err .invalidFormat) ∧
+    interp stageTableAsFound cexEnv (some (.int 5)) = some (.escape .attributeError) ∧
+    interp stageTable cexEnv (some (.str "json.dumps")) = some (.err .classNotFound) ∧
+    interp stageTableAsFound cexEnv (some (.str "json.dumps")) = some (.escape .typeError) ∧
+    interp stageTableAsFound cexEnv (some (.str "krrood.adapters.json_serializer.SubclassJSONSerializer"))
+      = some (.escape .notImplementedError) := by decide
+/-- a table that uses a variable before it is bound, or falls off the end, is not the table of a program -/
+example : interp [⟨.checkTruthy, [], some .missingType⟩] cexEnv none = none ∧
+    interp [⟨.getTag, [], none⟩] cexEnv none = none := by decide
+end Stages
+
 end KrroodVerif.Json
